@@ -393,6 +393,222 @@ theorem FileOK.snoc_eof {H bs opened name id fi} (h : FileOK H bs opened name id
     refine ⟨openTail_snoc_eof id rest _ h2, bs, [], ?_, he⟩
     rw [hc, ← h1]
 
+/-! ### linear extraction, abstractly: what `linear_extract` computes on a block list -/
+
+/-- one block of `Linear.loop`: the id ↦ name map of the chosen open files and the output map -/
+def linStep (chosen : List Bytes) (st : List (Nat × Bytes) × List (Bytes × Bytes)) :
+    Block → List (Nat × Bytes) × List (Bytes × Bytes)
+  | .start id name => (if chosen.contains name then (id, name) :: aerase id st.1 else st.1, st.2)
+  | .eof id _ => (aerase id st.1, st.2)
+  | .content id d =>
+    (st.1, match alookup id st.1 with
+      | some name => st.2.map fun (n, dd) => if n = name then (n, dd ++ d) else (n, dd)
+      | none => st.2)
+  | .eoad => st
+
+def linInit (chosen : List Bytes) : List (Nat × Bytes) × List (Bytes × Bytes) :=
+  ([], chosen.eraseDups.map fun n => (n, []))
+
+def linFold (chosen : List Bytes) (bs : List Block) : List (Nat × Bytes) × List (Bytes × Bytes) :=
+  bs.foldl (linStep chosen) (linInit chosen)
+
+theorem linFold_snoc (chosen : List Bytes) (bs : List Block) (b : Block) :
+    linFold chosen (bs ++ [b]) = linStep chosen (linFold chosen bs) b := by
+  simp [linFold, List.foldl_append]
+
+theorem nameLookup_append (n : Bytes) (l : List (Bytes × Nat)) (n' : Bytes) (v : Nat) :
+    nameLookup n (l ++ [(n', v)]) =
+      match nameLookup n l with
+      | some x => some x
+      | none => if n' = n then some v else none := by
+  induction l with
+  | nil => simp [nameLookup]
+  | cons x xs ih =>
+    obtain ⟨a, b⟩ := x
+    simp only [List.cons_append, nameLookup]
+    split
+    · rfl
+    · exact ih
+
+theorem mem_of_nameLookup (n : Bytes) (id : Nat) (l : List (Bytes × Nat))
+    (h : nameLookup n l = some id) : (n, id) ∈ l := by
+  induction l with
+  | nil => simp [nameLookup] at h
+  | cons x xs ih =>
+    obtain ⟨a, b⟩ := x
+    simp only [nameLookup] at h
+    by_cases e : a = n
+    · simp only [e, if_true, Option.some.injEq] at h
+      simp [e, h]
+    · simp only [e, if_false] at h
+      simp [ih h]
+
+theorem not_mem_keys_of_alookup_none {α} (k : Nat) (l : List (Nat × α)) (h : alookup k l = none) :
+    k ∉ l.map (·.1) := by
+  intro hm
+  obtain ⟨v, hv⟩ := alookup_isSome_of_mem_keys k l hm
+  rw [h] at hv; simp at hv
+
+theorem name_unique_of_id (l : List (Bytes × Nat)) (hn : (l.map (·.2)).Nodup) {a b : Bytes} {id : Nat}
+    (ha : (a, id) ∈ l) (hb : (b, id) ∈ l) : a = b := by
+  induction l with
+  | nil => simp at ha
+  | cons x xs ih =>
+    simp only [List.map_cons, List.nodup_cons] at hn
+    rcases List.mem_cons.1 ha with ha | ha <;> rcases List.mem_cons.1 hb with hb | hb
+    · rw [← ha] at hb; simp only [Prod.mk.injEq] at hb; exact hb.1.symm
+    · exfalso; apply hn.1; rw [← ha]; exact List.mem_map.2 ⟨(b, id), hb, rfl⟩
+    · exfalso; apply hn.1; rw [← hb]; exact List.mem_map.2 ⟨(a, id), ha, rfl⟩
+    · exact ih hn.2 ha hb
+
+/-- the state of linear extraction after the blocks `bs`, in terms of the writer's bookkeeping -/
+structure LinOK (chosen : List Bytes) (bs : List Block) (names : List (Bytes × Nat))
+    (opened : List (Nat × Bytes)) : Prop where
+  keys : ((linFold chosen bs).1.map (·.1)).Nodup
+  known : ∀ n id, (n, id) ∈ names → alookup id (linFold chosen bs).1 =
+    if (alookup id opened).isSome && chosen.contains n then some n else none
+  unknown : ∀ id, id ∉ names.map (·.2) → alookup id (linFold chosen bs).1 = none
+  out : (linFold chosen bs).2 = chosen.eraseDups.map fun n =>
+    (n, match nameLookup n names with
+        | some id => contentOf id bs
+        | none => [])
+
+theorem LinOK.init (chosen : List Bytes) : LinOK chosen [] [] [] := by
+  refine ⟨by simp [linFold, linInit], by simp, by simp [linFold, linInit, alookup], ?_⟩
+  simp [linFold, linInit, nameLookup]
+
+theorem LinOK.snoc_start {chosen bs names opened} (h : LinOK chosen bs names opened)
+    (id : Nat) (name : Bytes) (hid : id ∉ names.map (·.2)) (hc : contentOf id bs = [])
+    (opened' : List (Nat × Bytes)) (ho1 : alookup id opened' = some [])
+    (ho2 : ∀ k, k ≠ id → alookup k opened' = alookup k opened) :
+    LinOK chosen (bs ++ [.start id name]) (names ++ [(name, id)]) opened' := by
+  have hnone := h.unknown id hid
+  have hnk := not_mem_keys_of_alookup_none _ _ hnone
+  refine ⟨?_, ?_, ?_, ?_⟩
+  · rw [linFold_snoc]
+    simp only [linStep]
+    split
+    · simp only [List.map_cons, List.nodup_cons]
+      refine ⟨fun hm => hnk ((aerase_keys_sublist id _).subset hm), ?_⟩
+      exact (aerase_keys_sublist id _).nodup h.keys
+    · exact h.keys
+  · intro n id' hmem
+    rw [linFold_snoc]
+    rcases List.mem_append.1 hmem with hmem | hmem
+    · have hne : id' ≠ id := by
+        intro e; apply hid; rw [← e]; exact List.mem_map.2 ⟨(n, id'), hmem, rfl⟩
+      rw [ho2 id' hne, ← h.known n id' hmem]
+      simp only [linStep]
+      split
+      · have : ¬ id = id' := fun e => hne e.symm
+        simp only [alookup, this, if_false]
+        exact alookup_aerase_ne _ _ _ hne
+      · rfl
+    · simp only [List.mem_singleton, Prod.mk.injEq] at hmem
+      obtain ⟨rfl, rfl⟩ := hmem
+      simp only [linStep, ho1, Option.isSome_some, Bool.true_and]
+      split
+      · simp [alookup]
+      · exact hnone
+  · intro k hk
+    simp only [List.map_append, List.map_cons, List.map_nil, List.mem_append, List.mem_singleton,
+      not_or] at hk
+    rw [linFold_snoc]
+    simp only [linStep]
+    split
+    · have : ¬ id = k := fun e => hk.2 e.symm
+      simp only [alookup, this, if_false]
+      rw [alookup_aerase_ne _ _ _ hk.2]
+      exact h.unknown k hk.1
+    · exact h.unknown k hk.1
+  · rw [linFold_snoc]
+    simp only [linStep]
+    rw [h.out]
+    apply List.map_congr_left
+    intro n _
+    rw [nameLookup_append]
+    cases hl : nameLookup n names with
+    | some x => simp [Block.dataFor]
+    | none =>
+      by_cases hn : name = n
+      · simp [hn, Block.dataFor, hc]
+      · simp [hn]
+
+theorem LinOK.snoc_eof {chosen bs names opened} (h : LinOK chosen bs names opened)
+    (id : Nat) (g : Bytes) (hid : id ∈ names.map (·.2))
+    (opened' : List (Nat × Bytes)) (ho1 : alookup id opened' = none)
+    (ho2 : ∀ k, k ≠ id → alookup k opened' = alookup k opened) :
+    LinOK chosen (bs ++ [.eof id g]) names opened' := by
+  refine ⟨?_, ?_, ?_, ?_⟩
+  · rw [linFold_snoc]
+    exact (aerase_keys_sublist id _).nodup h.keys
+  · intro n id' hmem
+    rw [linFold_snoc]
+    simp only [linStep]
+    by_cases hne : id' = id
+    · subst hne
+      rw [ho1, alookup_aerase_self _ _ h.keys]
+      simp
+    · rw [ho2 id' hne, alookup_aerase_ne _ _ _ hne]
+      exact h.known n id' hmem
+  · intro k hk
+    have hne : k ≠ id := fun e => hk (e ▸ hid)
+    rw [linFold_snoc]
+    simp only [linStep]
+    rw [alookup_aerase_ne _ _ _ hne]
+    exact h.unknown k hk
+  · rw [linFold_snoc]
+    simp only [linStep]
+    rw [h.out]
+    apply List.map_congr_left
+    intro n _
+    cases hl : nameLookup n names <;> simp [Block.dataFor]
+
+theorem LinOK.snoc_content {chosen bs names opened} (h : LinOK chosen bs names opened)
+    (id : Nat) (d : Bytes) (n : Bytes) (hmem : (n, id) ∈ names)
+    (hn1 : (names.map (·.1)).Nodup) (hn2 : (names.map (·.2)).Nodup)
+    (hop : (alookup id opened).isSome = true)
+    (opened' : List (Nat × Bytes))
+    (ho : ∀ k, (alookup k opened').isSome = (alookup k opened).isSome) :
+    LinOK chosen (bs ++ [.content id d]) names opened' := by
+  have hlook : nameLookup n names = some id := nameLookup_of_mem n id names hn1 hmem
+  have hother : ∀ k id', k ≠ n → nameLookup k names = some id' → ¬ id = id' := by
+    intro k id' hk hl e
+    subst e
+    exact hk (name_unique_of_id names hn2 (mem_of_nameLookup _ _ _ hl) hmem)
+  refine ⟨?_, ?_, ?_, ?_⟩
+  · rw [linFold_snoc]; exact h.keys
+  · intro n' id' hm
+    rw [linFold_snoc, ho]
+    exact h.known n' id' hm
+  · intro k hk
+    rw [linFold_snoc]
+    exact h.unknown k hk
+  · rw [linFold_snoc]
+    simp only [linStep]
+    rw [h.known n id hmem, hop, Bool.true_and, h.out]
+    by_cases hc : chosen.contains n = true
+    · simp only [hc, if_true, List.map_map]
+      apply List.map_congr_left
+      intro k _
+      simp only [Function.comp]
+      by_cases hk : k = n
+      · subst hk
+        simp [hlook, Block.dataFor]
+      · simp only [hk, if_false]
+        cases hl : nameLookup k names with
+        | none => rfl
+        | some id' => simp [Block.dataFor, hother k id' hk hl]
+    · simp only [hc, Bool.false_eq_true, if_false]
+      apply List.map_congr_left
+      intro k hk
+      have hkc : chosen.contains k = true := by
+        rw [List.contains_iff_mem]; exact List.mem_eraseDups.1 hk
+      have hkn : k ≠ n := fun e => hc (e ▸ hkc)
+      cases hl : nameLookup k names with
+      | none => rfl
+      | some id' => simp [Block.dataFor, hother k id' hkn hl]
+
 /-! ### the invariant -/
 
 structure Inv (P : Params) (H : Bytes → Bytes) (utf8 : Bytes → Bool) (s : WState)
@@ -410,11 +626,12 @@ structure Inv (P : Params) (H : Bytes → Bytes) (utf8 : Bytes → Bool) (s : WS
   spf : sp.files = s.names.map (fun p => ⟨p.2, p.1, contentOf p.2 bs⟩)
   files : ∀ n id, (n, id) ∈ s.names →
     ∃ fi, alookup id s.info = some fi ∧ FileOK H bs s.opened n id fi
+  lin : ∀ chosen, LinOK chosen bs s.names s.opened
 
 theorem Inv.init (P : Params) (H : Bytes → Bytes) (utf8 : Bytes → Bool) :
     Inv P H utf8 WState.init [] {} := by
   refine ⟨rfl, rfl, Or.inl rfl, by simp, rfl, by simp [WState.init], rfl, by simp [WState.init],
-    by simp [WState.init], rfl, rfl, by simp [WState.init]⟩
+    by simp [WState.init], rfl, rfl, by simp [WState.init], fun c => LinOK.init c⟩
 
 section
 variable {P : Params} {H : Bytes → Bytes} {utf8 : Bytes → Bool}
@@ -491,7 +708,8 @@ theorem stepStart_inv (hinv : Inv P H utf8 s bs sp) (name : Bytes) (hutf : utf8 
           olt := ?_
           spn := ?_
           spf := ?_
-          files := ?_ }
+          files := ?_
+          lin := ?_ }
       · simp [hinv.pos]
       · intro b hb
         rcases List.mem_append.1 hb with hb | hb
@@ -540,6 +758,15 @@ theorem stepStart_inv (hinv : Inv P H utf8 s bs sp) (name : Bytes) (hutf : utf8 
           refine ⟨⟨[s.pos], 0, 0⟩, by simp [alookup_append, alookup_eq_none _ _ hnotin'], ?_⟩
           rw [hinv.pos]
           exact FileOK.new hnm _ (by simp [alookup_append, alookup_eq_none _ _ hnotin])
+      · intro chosen
+        refine (hinv.lin chosen).snoc_start s.nextId name ?_ (contentOf_noMore _ _ hnm) _ ?_ ?_
+        · rw [hinv.ids]; simp
+        · simp [alookup_append, alookup_eq_none _ _ hnotin]
+        · intro k hk
+          rw [alookup_append]
+          cases alookup k s.opened with
+          | some v => rfl
+          | none => simp; omega
 
 /-! ### `mark_continuous_block` -/
 
@@ -624,7 +851,8 @@ theorem stepAppend_inv (hinv : Inv P H utf8 s bs sp) (id size : Nat) (src : Byte
           olt := ?_
           spn := ?_
           spf := ?_
-          files := ?_ }
+          files := ?_
+          lin := ?_ }
       · show sm.finalized = false
         rw [m1]; exact hinv.fin
       · show sm.pos + _ = _
@@ -675,6 +903,13 @@ theorem stepAppend_inv (hinv : Inv P H utf8 s bs sp) (id size : Nat) (src : Byte
         · refine ⟨fi, by rw [alookup_aupdate, if_neg hid, m8, if_neg hid, hfi], ?_⟩
           refine hok.snoc_other _ id rfl (fun e => hid e.symm) _ ?_
           rw [alookup_aupdate, if_neg hid]
+      · intro chosen
+        show LinOK chosen _ sm.names (aupdate id _ sm.opened)
+        rw [m5, m6]
+        obtain ⟨n, hn⟩ := hinv.name_of_lt hidlt
+        exact (hinv.lin chosen).snoc_content id d n hn hinv.nodup
+          (by rw [hinv.ids]; exact List.nodup_range) (by rw [ho]; rfl) _
+          (fun k => by rw [alookup_aupdate]; split <;> simp)
 
 /-! ### `end_file` -/
 
@@ -708,7 +943,8 @@ theorem stepEnd_inv (hH : ∀ b, (H b).length = hashLen) (hinv : Inv P H utf8 s 
         olt := ?_
         spn := ?_
         spf := ?_
-        files := ?_ }
+        files := ?_
+        lin := ?_ }
     · show sm.finalized = false
       rw [m1]; exact hinv.fin
     · show sm.pos + _ = _
@@ -756,6 +992,12 @@ theorem stepEnd_inv (hH : ∀ b, (H b).length = hashLen) (hinv : Inv P H utf8 s 
       · refine ⟨fi, by rw [alookup_aupdate, if_neg hid, m8, if_neg hid, hfi], ?_⟩
         refine hok.snoc_other _ id rfl (fun e => hid e.symm) _ ?_
         exact alookup_aerase_ne _ _ _ hid
+    · intro chosen
+      show LinOK chosen _ sm.names sm.opened
+      rw [m5, m6]
+      obtain ⟨n, hn⟩ := hinv.name_of_lt hidlt
+      exact (hinv.lin chosen).snoc_eof id _ (List.mem_map.2 ⟨(n, id), hn, rfl⟩) _
+        (alookup_aerase_self _ _ hinv.okeys) (fun k hk => alookup_aerase_ne _ _ _ hk)
 
 /-! ### `add_file` -/
 
